@@ -3,58 +3,25 @@
   (Side condition, generic theorems, header with "modelled, not verified":
   ZapProofs/Props/C19Pre.lean.)
 
-  THIS FILE HAS TWO STATES.
-
-  STATE "BEFORE" (pinned tree, defect D6 present): section BEFORE below is active.  It PROVES that
-  the side condition is FALSE on the current facts and pins down why: the single entry
-  (`faissVectorIndexSection.Persist`, `vo.writeVectorIndexes`) is `ignored`, so an engine failure
-  during a build is swallowed and `New` reports success.  Section AFTER is commented out.
-
-  STATE "AFTER" (D6 fixed in /repo: `Persist` returns the error of `writeVectorIndexes`, and
-  tools/regen.sh has regenerated Gen/Facts.lean): the extractor now emits
-      { fn := "faissVectorIndexSection.Persist", callee := "vo.writeVectorIndexes", disp := returned }
-  Then
-    * every statement of section BEFORE FAILS to compile (`decide` proves the opposite) - this is
-      the signal;
-    * delete section BEFORE (or comment it out) and remove the two comment markers around
-      section AFTER.  `c19SideCondition_holds` is then proved by `decide +kernel`, and
-      `facts_eq_expected` confirms the regenerated facts are exactly `c19Expected`.
-  If instead the fix changes the shape differently (e.g. the error is wrapped and the extractor
-  reports something else), `facts_eq_expected` fails while `c19SideCondition_holds` may still
-  hold: the latter is the obligation; the former is only a convenience check and may be dropped.
+  HISTORY.  On the pinned tree (defect D6) the entry
+      { fn := "faissVectorIndexSection.Persist", callee := "vo.writeVectorIndexes", disp := ignored }
+  made `c19SideCondition Facts.errFacts` evaluate to `false` (this file then proved exactly that).
+  Since the fix in /repo ("propagate vector index build errors from
+  faissVectorIndexSection.Persist") the extractor emits `returned` for that entry and the
+  instance below holds.  If the defect is reintroduced, `c19SideCondition_holds` fails with
+  "decide proved that the proposition ... is false"; section "The pinned tree" below shows what
+  the facts then look like and what the model says about them.
 -/
 import ZapProofs.Props.C19Pre
 
 namespace Zap.C19
 open Zap.Gen Zap.Gen.ErrDisp Zap.Theory Zap.Theory.Persist
 
-/-! ## BEFORE (delete once D6 is fixed) -/
-section Before
-
-/-- The obligation FAILS on the pinned tree. -/
-theorem c19SideCondition_fails_D6 : c19SideCondition Facts.errFacts = false := by decide +kernel
-
-/-- ... because of exactly one entry: -/
-theorem d6_entry :
-    (Facts.errFacts.filter fun e => vecFns.contains e.fn && !passes e.disp)
-      = [⟨"faissVectorIndexSection.Persist", "vo.writeVectorIndexes", ignored⟩] := by
-  decide +kernel
-
-/-- ... and repairing that entry is enough (`c19Expected_ok`).  In the model, on the current
-    facts, a failing engine call of `writeVectorIndexes` (here: the first one) yields SUCCESS. -/
-theorem d6_in_model :
-    run (some 0) none
-      ((Facts.errFacts.filter fun e => e.fn == fnWrite).map (buildOp Facts.errFacts))
-      = ⟨none, false, []⟩ := by decide +kernel
-
-end Before
-
-/-! ## AFTER (enable once D6 is fixed)
-
 /-- INSTANCE: the obligation that breaks when the Go source changes. -/
 theorem c19SideCondition_holds : c19SideCondition Facts.errFacts = true := by decide +kernel
 
-/-- Convenience: the regenerated facts are exactly the expected repair. -/
+/-- Convenience check: the regenerated facts are exactly the expected repair of the pinned
+    tree's facts (`c19Expected` repairs nothing any more). -/
 theorem facts_eq_expected : Facts.errFacts = c19Expected := by decide +kernel
 
 /-- C19, build path: EVERY operation sequence of `writeVectorIndexes`, EVERY failing position:
@@ -80,21 +47,36 @@ theorem C19_indexes_released :
       e.disp = cleanupReturned :=
   indexes_released Facts.errFacts c19SideCondition_holds
 
+/-- Hypotheses are satisfiable and non-trivial: the whole extracted operation sequence of
+    `writeVectorIndexes` (13 operations, 5 of them engine calls); failing the first engine call
+    gives an error, no fault gives success. -/
+example : ((Facts.errFacts.filter fun e => e.fn == fnWrite).length = 13)
+    ∧ run (some 0) none ((Facts.errFacts.filter fun e => e.fn == fnWrite).map (buildOp Facts.errFacts))
+        = ⟨some .io, false, []⟩
+    ∧ run none none ((Facts.errFacts.filter fun e => e.fn == fnWrite).map (buildOp Facts.errFacts))
+        = ⟨none, false, []⟩ := by decide +kernel
+
+/-! ### The pinned tree (D6) -/
+
+/-- The facts as extracted from the pinned tree. -/
+def preFixFacts : List ErrFact :=
+  patch Facts.errFacts "faissVectorIndexSection.Persist" "vo.writeVectorIndexes" ignored
+
+/-- The obligation fails there ... -/
+example : c19SideCondition preFixFacts = false := by decide +kernel
+
+/-- ... because of exactly that entry ... -/
+example : (preFixFacts.filter fun e => vecFns.contains e.fn && !passes e.disp)
+    = [⟨"faissVectorIndexSection.Persist", "vo.writeVectorIndexes", ignored⟩] := by decide +kernel
+
+/-- ... and in the model a failing engine call of `writeVectorIndexes` then yields SUCCESS. -/
+example : run (some 0) none
+    ((preFixFacts.filter fun e => e.fn == fnWrite).map (buildOp preFixFacts))
+    = ⟨none, false, []⟩ := by decide +kernel
+
+end Zap.C19
+
 #print axioms Zap.C19.c19SideCondition_holds
 #print axioms Zap.C19.C19_engine_fault_surfaces_build
 #print axioms Zap.C19.C19_engine_fault_surfaces_merge
 #print axioms Zap.C19.C19_indexes_released
--/
-
-/-- Independent of D6 (holds before and after): the merge path already surfaces engine faults
-    and releases the reconstructed indexes. -/
-theorem merge_links_ok :
-    propagates (upMerge Facts.errFacts) = true ∧ cleans (upMerge Facts.errFacts) = true
-    ∧ (Facts.errFacts.filter fun e => e.fn == fnMerge).all (fun e => passes e.disp) = true
-    ∧ (linkDisps Facts.errFacts fnMerge "faiss.ReadIndexFromBuffer").all (· == cleanupReturned) = true
-    ∧ (linkDisps Facts.errFacts fnMerge "vecIndexes[i].index.ReconstructBatch").all
-        (· == cleanupReturned) = true := by decide +kernel
-
-end Zap.C19
-
-#print axioms Zap.C19.merge_links_ok
